@@ -500,3 +500,25 @@ def self_call_sequence(qualname, block, expected, note=""):
     calls = [s.value.func.attr for s in stmts if isinstance(s, ast.Expr) and isinstance(s.value, ast.Call) and isinstance(s.value.func, ast.Attribute)
              and isinstance(s.value.func.value, ast.Name) and s.value.func.value.id == "self"]
     return [_ob(qualname, "call-order:%s" % block, calls == list(expected), stmts[0].lineno if stmts else fi.lineno, "expected self-calls %s, found %s. %s" % (list(expected), calls, note))]
+
+
+def dependency_edges(qualname, expected_edges, order_assignments):
+    """the dependency graphs handed to the (external) topological sort have their edges pointing from the prerequisite to the
+    dependant -- every `G.add_edge(u, v)` call of the function is one of `expected_edges` (source text of (u, v)) and each is present --
+    and each execution order is taken from `topological_sort(G)` (source text of the right-hand side must mention it)"""
+    fi = source.lookup(qualname)
+    found = []
+    for n in ast.walk(fi.node):
+        if isinstance(n, ast.Call) and isinstance(n.func, ast.Attribute) and n.func.attr == "add_edge" and len(n.args) == 2:
+            found.append(((ast.unparse(n.args[0]), ast.unparse(n.args[1])), n.lineno))
+    out = []
+    for (u, v), line in found:
+        out.append(_ob(qualname, "edge-from-prerequisite-to-dependant@L%d" % line, (u, v) in expected_edges, line, "G.add_edge(%s, %s): expected one of %s" % (u, v, expected_edges)))
+    for e in expected_edges:
+        if e not in [f for f, _ in found]:
+            out.append(_ob(qualname, "edge-present:%s->%s" % e, False, fi.lineno, "no G.add_edge(%s, %s) in the function" % e))
+    for key in order_assignments:
+        rhs = [ast.unparse(s.value) for s in ast.walk(fi.node) if isinstance(s, ast.Assign) and len(s.targets) == 1 and ast.unparse(s.targets[0]).replace('"', "'") == "exec_order['%s']" % key]
+        ok = len(rhs) == 1 and "topological_sort(G)" in rhs[0]
+        out.append(_ob(qualname, "order-is-a-topological-sort:%s" % key, ok, fi.lineno, "exec_order['%s'] = %s" % (key, rhs)))
+    return out
